@@ -1385,6 +1385,12 @@ func EncodeValueAsKey(val TypedValue, colType SQLValueType, maxLen int) ([]byte,
 	return EncodeRawValueAsKey(val.RawValue(), colType, maxLen)
 }
 
+// timestamps that can be part of a key (nanoseconds since the epoch in an int64)
+var (
+	minKeyTimestamp = time.Unix(0, math.MinInt64).UTC()
+	maxKeyTimestamp = time.Unix(0, math.MaxInt64).UTC()
+)
+
 // EncodeRawValueAsKey encodes a value in a b-tree meaningful way.
 func EncodeRawValueAsKey(val interface{}, colType SQLValueType, maxLen int) ([]byte, int, error) {
 	if maxLen <= 0 {
@@ -1505,6 +1511,13 @@ func EncodeRawValueAsKey(val interface{}, colType SQLValueType, maxLen int) ([]b
 			timeVal, ok := convVal.(time.Time)
 			if !ok {
 				return nil, 0, fmt.Errorf("value is not a timestamp: %w", ErrInvalidValue)
+			}
+
+			// keys hold nanoseconds since the epoch: outside the range of an int64 UnixNano
+			// is undefined and the order of the keys would not be the order of the values
+			if timeVal.Before(minKeyTimestamp) || timeVal.After(maxKeyTimestamp) {
+				return nil, 0, fmt.Errorf("timestamp can not be used as part of a key (supported range is %s to %s): %w",
+					minKeyTimestamp.Format(time.RFC3339), maxKeyTimestamp.Format(time.RFC3339), ErrInvalidValue)
 			}
 
 			// v
